@@ -4,5 +4,7 @@
 J=3
 while getopts "j:" o; do case $o in j) J=$OPTARG;; esac; done; shift $((OPTIND-1))
 NAMES="${@:-$(ls /verif/seeded)}"
+# when started through `vp run` the snapshot's own harness sources are used, so edits in /verif do not disturb the run
+[ -d "$PWD/harness/cmd/xjsverif" ] && export VERIF_HARNESS="$PWD/harness"
 mkdir -p /tmp/xmx
 for n in $NAMES; do echo $n; done | xargs -P $J -I{} bash -c 'n={}; /verif/tools/mutant_matrix.sh /verif/seeded/$n/patch.diff x-$n > /tmp/xmx/$n.out 2>&1; cat /tmp/xmx/$n.out'
